@@ -21,6 +21,9 @@ A case:
 
 'residuals' cases call cov_from_residuals / prec_from_residuals; 'dataset' cases call both
 cov_from_measurements and cov_from_unbalanced (+ the two prec_from_*) on the same dataset(s).
+'session' cases (round 4, engines/C14_session.py): ONE Dataset object, a list of steps -- estimator
+calls interleaved with in-place changes (sort_by, stores into obs_descriptors / measurements);
+every estimate is judged against the content the object has at that moment.
 """
 import copy
 from fractions import Fraction as F
@@ -28,6 +31,7 @@ from fractions import Fraction as F
 import numpy as np
 
 from lean import rat, unrat, unfbits
+from engines import C14_session as SES
 
 PROPERTY = 'C14'
 LEVEL = 'proof'
@@ -44,7 +48,11 @@ THEOREMS = [P + n for n in (
     'measurements_perm', 'unbalanced_relabel', 'measurements_relabel',
     'eye_unshrunk_when_target_reached', 'sdiag_constant_channel_unshrunk', 'sdDegenerate_iff',
     'source_skeletons', 'dispatch_table', 'dof_default', 'tensor_layout', 'inputs_not_written',
-    'prec_is_inverse', 'singular_has_no_precision', 'constant_channel_singular', 'fast_eq_model')]
+    'prec_is_inverse', 'singular_has_no_precision', 'constant_channel_singular', 'fast_eq_model',
+    # round 4: sessions on one dataset object
+    'session_estimate_of_current_content', 'session_estimates_leave_content', 'session_repeat_identical',
+    'view_sortBy_perm', 'sortBy_sorted', 'session_sort_keeps_estimates', 'session_sorts_only',
+    'session_full_is_pooled_cov_of_current')]
 RULE = ('one PRNG; residual matrices n=2..12 x p=1..6 (incl. p > n), datasets with 1..5 conditions '
         'x 1..5 repetitions in shuffled row order with arbitrary integer or string labels, balanced '
         'and unbalanced; values are small integers / halves (exact in binary) stored as float64, '
@@ -52,7 +60,12 @@ RULE = ('one PRNG; residual matrices n=2..12 x p=1..6 (incl. p > n), datasets wi
         '(zero residual variance) channel; four methods; dof None / scalar (python or numpy) / list, '
         'tuple or ndarray (also too short / too long); single inputs, lists and tuples (elements may '
         'differ in channel count), stacked 3-D arrays; keyword, positional and default-argument call '
-        'styles; descriptor name varied, decoy descriptor present.  A case is non-trivial '
+        'styles; descriptor name varied, decoy descriptor present; multi-step sessions on ONE Dataset '
+        'object (3 descriptors, run-wise / shuffled / condition-wise row order): estimator calls (both '
+        'estimators, cov / prec, all methods, any descriptor, dof None / passed, repeated, either order) '
+        'interleaved with sort_by on several keys, stores into obs_descriptors[...] / measurements, '
+        'replaced descriptor lists / arrays, get_measurements_tensor calls -- every estimate judged '
+        'against the content of that moment.  A case is non-trivial '
         'when at least one covariance was returned; distinct = distinct (kind, method, form, dof, '
         'inputs, representation keys)')
 BRANCHES = ['res:single', 'res:list', 'res:array3', 'ds:single:balanced', 'ds:single:unbalanced',
@@ -67,7 +80,7 @@ BRANCHES = ['res:single', 'res:list', 'res:array3', 'ds:single:balanced', 'ds:si
             'eye:deg:dof-passed', 'prec:singular:LinAlgError', 'prec:singular:returned',
             'list:mixed-p', 'dof:list:short', 'dof:list:long', 'call:pos', 'call:default',
             'desc:renamed', 'desc:decoy', 'container:tuple', 'layout:F', 'layout:strided',
-            'layout:readonly', 'ds:labels-unsorted', 'malformed:0d', 'malformed:1d']
+            'layout:readonly', 'ds:labels-unsorted', 'malformed:0d', 'malformed:1d'] + SES.BRANCHES
 ASSUMPTIONS = [
     'numpy float64 evaluation of the closed-form estimators is within 1e-9 relative of the exact '
     'value on the generated (small, dyadic) inputs',
@@ -219,6 +232,8 @@ def _invoke(case, fn, arg, desc, dof, method):
 def run_impl(case):
     from rsatoolbox.data import noise as N
     from rsatoolbox.data import Dataset
+    if case['kind'] == 'session':
+        return SES.run_impl(case)
     form, method = case['form'], case['method']
     if case['kind'] == 'malformed':
         # not a residual matrix at all: a 0-d array / a 1-D vector (the input check of `_check_demean`)
@@ -281,6 +296,8 @@ def _mode(case):
 
 
 def model_requests(case):
+    if case['kind'] == 'session':
+        return SES.model_requests(case)
     if case['kind'] == 'malformed':
         return []
     base = {'op': 'c14.run', 'mode': _mode(case), 'method': case['method'], 'p': case['p'],
@@ -309,6 +326,8 @@ def _mat(case, m, exact=False):
 
 
 def model_result(case, answers):
+    if case['kind'] == 'session':
+        return SES.model_result(case, answers)
     if case['kind'] == 'malformed':
         return {'calls': {}, 'unchanged': True, 'rejects': True}
     names = ['residuals'] if case['kind'] == 'residuals' else ['measurements', 'unbalanced']
@@ -355,6 +374,8 @@ def _short_dof(case):
 
 
 def compare(case, impl, model):
+    if case['kind'] == 'session':
+        return SES.compare(case, impl, model)
     _set_tol(case)
     if 'model_error' in model:
         return f"model error {model['model_error']}"
@@ -369,6 +390,8 @@ def compare(case, impl, model):
     for call, mres in model['calls'].items():
         est, which = call.split(':')
         ires = impl['calls'].get(call)
+        if ires is None and case.get('_sub'):
+            continue               # one estimator call of a session: only the function that was called
         mcov = model['calls'][est + ':cov']
         raises = [c is None for c in mcov]
         if isinstance(ires, dict) and 'exc' in ires:
@@ -569,6 +592,8 @@ def _check_prec(cov, prec, tag):
 
 
 def oracle(case):
+    if case['kind'] == 'session':
+        return SES.oracle(case)
     if case['kind'] == 'malformed' or not _valid(case):
         return None            # outside the case space the property / assumptions describe
     _set_tol(case)
@@ -646,6 +671,8 @@ def oracle(case):
 
 def features(case, impl):
     kind, form, method, p = case['kind'], case['form'], case['method'], case['p']
+    if kind == 'session':
+        return SES.features(case, impl)
     if kind == 'malformed':
         return {'kind': kind, 'method': method, 'form': form, 'branches': ['malformed:' + form]}
     br = ['method:' + method, 'dof:' + _dof_kind(case)]
@@ -732,6 +759,8 @@ def features(case, impl):
 
 
 def nontrivial_key(case, impl):
+    if case['kind'] == 'session':
+        return SES.nontrivial_key(case, impl)
     if case['kind'] == 'malformed':
         return None
     if impl is None or not any(isinstance(r, dict) and 'items' in r for r in impl['calls'].values()):
@@ -1034,18 +1063,24 @@ def generate(rng, tier):
     n = 280 if tier == 'quick' else 8000
     for _ in range(n):
         yield _random_case(rng)
+    yield from SES.generate(rng, tier)        # round 4: sessions on one dataset object
 
 
 def search(rng, tier):
     yield from _structured(rng)
+    yield from SES.structured(rng)
     while True:
         yield _random_case(rng)
+        if rng.random() < 0.3:
+            yield SES.random_session(rng)
 
 
 # ------------------------------------------------------------------ shrinking
 
 def shrink(case, still_fails):
     """greedy: fewer inputs, fewer rows, fewer channels, simpler values"""
+    if case['kind'] == 'session':
+        return SES.shrink(case, still_fails)
     cur = copy.deepcopy(case)
     if case['kind'] == 'malformed':
         return cur
